@@ -27,7 +27,7 @@ theorem c15_h264_encoded (avc : Bool) (st : Bytes) (plan : List Item) (hw : plan
 /-- frames of pion's payloader: all payloads of any history of calls (MTU ≥ 3, well-formed units,
     STAP-A on or off) on a new H264Payloader, after any receiver history -/
 theorem c15_h264_payloader (disable avc : Bool) (st : Bytes) (calls : List C10.RtCall)
-    (hw : ∀ c ∈ calls, callWF c) :
+    (hw : ∀ c ∈ calls, C10.RtCall.WF c) :
     (run avc st (fragsCalls disable {} calls)).1 = (run avc [] (fragsCalls disable {} calls)).1 := by
   obtain ⟨plan, e, w, _, _, _⟩ := history_plan disable calls hw
   rw [e]
